@@ -2,14 +2,17 @@
 From SC Require Import Base.Prelude Wrap.Stream Wrap.GrpcSpec Wrap.C13Judge Wrap.StreamProofs Servers.Stack.
 From SC Require Router.Pump Router.PumpProofs.
 
-Lemma wf_stream_steps ms : forall sent, wf_steps ServerStream true sent false (map S2C ms ++ [Cancel]) = true.
+Lemma wf_stream_steps ms : forall sent, wf_steps ServerStream true sent false (map S2C ms ++ [Cancel false]) = true.
 Proof. induction ms as [|m r IH]; intros sent; simpl; [reflexivity|]. apply IH. Qed.
 
-Lemma k1_stream ms : k1_steps false (map S2C ms ++ [Cancel]) = false.
+Lemma k1_stream ms : k1_steps false (map S2C ms ++ [Cancel false]) = false.
 Proof. induction ms as [|m r IH]; simpl; [reflexivity|exact IH]. Qed.
 
-Lemma k2_stream ms : k2_steps ServerStream (map S2C ms ++ [Cancel]) = false.
+Lemma k2_stream ms : k2_steps ServerStream (map S2C ms ++ [Cancel false]) = false.
 Proof. induction ms as [|m r IH]; simpl; [reflexivity|exact IH]. Qed.
+
+Lemma k4_stream ms : forall sent, k4_steps sent (map S2C ms ++ [Cancel false]) = false.
+Proof. induction ms as [|m r IH]; intros sent; simpl; [reflexivity|apply IH]. Qed.
 
 Definition gots (c : list cobs) : list Z := flat_map (fun o => match o with CGot m => [m] | _ => [] end) c.
 
@@ -17,7 +20,7 @@ Lemma gots_app a b : gots (a ++ b) = gots a ++ gots b.
 Proof. unfold gots. apply flat_map_app. Qed.
 
 Lemma g_stream ms : forall g, g_over g = false ->
-  gots (fst (g_steps ServerStream g (map S2C ms ++ [Cancel]))) = ms.
+  gots (fst (g_steps ServerStream g (map S2C ms ++ [Cancel false]))) = ms.
 Proof.
   induction ms as [|m r IH]; intros g Hg.
   - simpl. unfold g_step. rewrite Hg. reflexivity.
@@ -25,7 +28,7 @@ Proof.
     assert (Ho : g_over (g_send_headers [] g) = false).
     { unfold g_send_headers. destruct (g_sent g); [exact Hg|exact Hg]. }
     specialize (IH (g_send_headers [] g) Ho).
-    destruct (g_steps ServerStream (g_send_headers [] g) (map S2C r ++ [Cancel])) as [c2 sv2].
+    destruct (g_steps ServerStream (g_send_headers [] g) (map S2C r ++ [Cancel false])) as [c2 sv2].
     cbn [fst] in *. rewrite gots_app. simpl. f_equal. exact IH.
 Qed.
 
@@ -35,10 +38,10 @@ Proof.
   rewrite wrapper_equals_grpc.
   - unfold grpc_run, stream_scn. cbn [precancel shp steps req cs is_invoke].
     pose proof (g_stream ms (g_init (negb false)) eq_refl) as H.
-    destruct (g_steps ServerStream (g_init (negb false)) (map S2C ms ++ [Cancel])) as [c sv].
+    destruct (g_steps ServerStream (g_init (negb false)) (map S2C ms ++ [Cancel false])) as [c sv].
     unfold got. cbn [fst] in *. change (gots ([CSent true; CClosed] ++ c) = ms). rewrite gots_app. exact H.
   - unfold wf, stream_scn. cbn [precancel shp steps cs negb]. apply wf_stream_steps.
-  - unfold no_known, known_class, stream_scn. cbn [precancel shp steps]. rewrite k1_stream, k2_stream. reflexivity.
+  - unfold no_known, known_class, stream_scn. cbn [precancel shp steps]. rewrite k1_stream, k2_stream, k4_stream. reflexivity.
 Qed.
 
 Theorem router_stream_transparent : forall ms, router_stream ms = ms.
